@@ -114,6 +114,9 @@ def check_receive(ctx, W, Heff, origin):
                         "powered": powered})
 
 
+EXPECT = {"metric": None, "num_streams": None}     # what the driver last asked for
+
+
 def post_extint(ctx, args, kwargs, result):
     self = args[0]
     mu = args[1] if len(args) > 1 else kwargs["mu_channel"]
@@ -134,6 +137,15 @@ def post_extint(ctx, args, kwargs, result):
     ctx.ev("stream-counts", ok_shapes, cls="lengths", detail=d())
     if not ok_shapes:
         return
+    if EXPECT["metric"] is not None and isinstance(self, BD.EnhancedBD):
+        # the configuration in force is the one requested LAST
+        want = EXPECT["metric"]
+        ctx.ev("stream-counts", str(metric) == want, cls="metric-in-force",
+               detail=d(requested=want))
+        if want in ("naive", "fixed") and EXPECT["num_streams"] is not None:
+            ctx.ev("stream-counts", all(int(x) == EXPECT["num_streams"] for x in Ns),
+                   cls="requested-number-of-streams",
+                   detail=d(requested=EXPECT["num_streams"], metric_requested=want))
     # the whitening variant block-diagonalises W H (W = whitening filters), so
     # its null spaces are accurate relative to ||W H||: seen through the
     # unwhitened channel the leakage is amplified by the condition of W
@@ -317,6 +329,8 @@ def case_extint(ctx, rng, idx):
             mod = [F.BPSK(), F.QPSK(), F.PSK(8), F.QAM(16), F.QAM(64)][int(rng.integers(0, 5))]
             extra = {"modulator": mod, "packet_length": int(rng.choice([1, 60, 1000]))}
         bd.set_ext_int_handling_metric(None if metric == "None" else metric, extra)
+    EXPECT["metric"] = metric if metric != "whitening" else None
+    EXPECT["num_streams"] = (extra or {}).get("num_streams")
     d = {"K": K, "nant": nant, "NtE": NtE, "metric": metric,
          "extra": {k: (v if isinstance(v, int) else repr(v)) for k, v in (extra or {}).items()},
          "Pu": Pu, "noise": noise, "pe": pe}
@@ -329,12 +343,26 @@ def case_extint(ctx, rng, idx):
             bd.iPu = 10.0 ** rng.uniform(-2, 2)
             if rng.random() < 0.5:
                 mu.randomize(nant, nant, K, NtE if len(NtE) > 1 else int(NtE[0]))
+            d2 = {**d, "round": 2}
+            if metric != "whitening" and rng.random() < 0.6:
+                # the same object is reconfigured: same metric with another
+                # stream count, or another metric
+                m2 = metric if (metric in ("naive", "fixed") and rng.random() < 0.6) else \
+                    str(rng.choice(["None", "naive", "fixed", "capacity"]))
+                extra2 = None
+                if m2 in ("naive", "fixed"):
+                    lim = nant if m2 == "naive" else nant - tot
+                    extra2 = {"num_streams": int(rng.integers(1, max(1, lim) + 1))}
+                bd.set_ext_int_handling_metric(None if m2 == "None" else m2, extra2)
+                EXPECT["metric"], EXPECT["num_streams"] = m2, (extra2 or {}).get("num_streams")
+                d2 = {**d2, "metric": m2, "extra": extra2, "reconfigured-from": metric}
             ctx.call("extint-inter-user-null", bd.block_diagonalize_no_waterfilling, mu,
-                     detail={**d, "round": 2})
+                     detail=d2)
         ctx.sig("extint", K, nant, tuple(NtE), metric, (extra or {}).get("num_streams"))
         ctx.sample("extint:" + metric, d)
     finally:
         monitors.ACTIVE[0] = None
+        EXPECT["metric"] = EXPECT["num_streams"] = None
 
 
 def case_bad_metric(ctx, rng, idx):
